@@ -1,12 +1,12 @@
 CONSTANTS
-  K = 2
-  M = 1
-  Depth = 4
+  K = 1
+  M = 3
+  Depth = 8
   Kinds = {"slice","btree"}
   Formats = {"pilosa"}
-  MaxBatch = 2
+  MaxBatch = 3
   RowSizes = {0}
-  Alphabet = {"Add","Remove","AddN","RemoveN","ImportSet","ImportClear","Optimize","Reencode","Hold"}
+  Alphabet = {"Add","AddN","Remove","Hold","Optimize","Count","RemoveN","ImportSet","ImportClear","Reencode","Slice","Views","CountRange"}
 INIT Init
 NEXT Next
 INVARIANT TypeOK
